@@ -544,7 +544,107 @@ fn run_case(case: &Case) -> (String, String) {
     (obs, oracle)
 }
 
+/// The `x …` cases: what the `Weak` references do once the executor is gone, and `spawn_pinned`.
+fn run_extra(name: &str) -> (String, String) {
+    let sh = |ok: bool, wc: usize| if ok { format!("queued{wc}") } else { "refused".to_string() };
+    match name {
+        "wake-after-drop" => {
+            let case = Case { sticky: false, roots: 1, scripts: vec![vec![Act::W(0)]] };
+            let (exec, world) = build(&case);
+            world.borrow_mut().step_no += 1;
+            let r = exec.step();
+            let wc = exec.wake_count();
+            let wakers: Vec<(usize, Waker)> = world.borrow_mut().waiters.pop().unwrap_or_default();
+            teardown(&world);
+            drop(exec);
+            let n = wakers.len();
+            for (_, w) in wakers {
+                w.wake_by_ref();
+                w.clone().wake();
+                drop(w);
+            }
+            let ok = r == Some(false) && n == 1 && world.borrow().fails.is_empty();
+            (format!("wc={wc} after-drop=discarded"), if ok { "ok".into() } else { "FAIL:wake-after-drop".into() })
+        }
+        "dead-spawner" => {
+            let sp: Spawner<'static> = Spawner::dead();
+            let a = unsafe { sp.spawn(async { 1u64 }) }.is_ok();
+            let b = unsafe { sp.spawn_pinned(Box::pin(async {})) }.is_ok();
+            (format!("spawn={} pinned={}", sh(a, 0), sh(b, 0)), if !a && !b { "ok".into() } else { "FAIL:dead-spawner-spawned".into() })
+        }
+        "spawner-after-drop" => {
+            let exec: Executor<'static> = Executor::new();
+            let sp = exec.spawner();
+            let l = unsafe { sp.spawn(async { 1u64 }) }.is_ok();
+            let wc = exec.wake_count();
+            drop(exec);
+            let a = unsafe { sp.spawn(async { 1u64 }) }.is_ok();
+            let b = unsafe { sp.spawn_pinned(Box::pin(async {})) }.is_ok();
+            (
+                format!("before={} spawn={} pinned={}", sh(l, wc), sh(a, 0), sh(b, 0)),
+                if l && !a && !b { "ok".into() } else { "FAIL:spawn-after-drop".into() },
+            )
+        }
+        "spawn-pinned" => {
+            let case = Case { sticky: false, roots: 0, scripts: vec![vec![Act::Y], vec![], vec![]] };
+            let (exec, world) = build(&case);
+            for i in 0..3 {
+                let mut w = world.borrow_mut();
+                let before = w.wake_count();
+                let tid = w.new_task();
+                let task = ScriptTask { tid, w: Rc::clone(&world) };
+                match i {
+                    0 => unsafe { exec.spawn_pinned(Box::pin(async move { task.await; })) },
+                    1 => {
+                        let r = unsafe { w.spawner.spawn_pinned(Box::pin(async move { task.await; })) };
+                        if r.is_err() {
+                            w.fail("spawn_pinned-refused".into());
+                        }
+                    }
+                    _ => {
+                        let rx = unsafe { exec.spawn(task) };
+                        w.receivers[tid] = Some(rx);
+                    }
+                }
+                let after = w.wake_count();
+                w.note_enqueue(tid, before, after, "root");
+            }
+            let wc = exec.wake_count();
+            let mut compl = 0;
+            for _ in 0..100 {
+                world.borrow_mut().step_no += 1;
+                match exec.step() {
+                    Some(true) => compl += 1,
+                    Some(false) => {}
+                    None => break,
+                }
+            }
+            let polls: Vec<String> = world.borrow().poll_log.iter().map(|(t, _)| t.to_string()).collect();
+            teardown(&world);
+            let w = world.borrow();
+            (
+                format!("wc={wc} polls={} compl={compl}", polls.join(".")),
+                if w.fails.is_empty() { "ok".into() } else { format!("FAIL:{}", w.fails.join(";")) },
+            )
+        }
+        _ => ("bad-case".into(), "-".into()),
+    }
+}
+
 fn run_line(line: &str) {
+    if let Some(name) = line.strip_prefix("x ") {
+        let mut out = (String::new(), String::new());
+        let o = guarded(|| {
+            out = run_extra(name.trim());
+            out.0.clone()
+        });
+        if o.starts_with("PANIC") {
+            emit(line, &o, &format!("FAIL:{o}"));
+        } else {
+            emit(line, &out.0, &out.1);
+        }
+        return;
+    }
     let Some(case) = parse_case(line) else {
         emit(line, "bad-case", "-");
         return;
@@ -670,6 +770,11 @@ fn main() {
         return;
     }
     let (si, sn) = o.shard;
+    if si == 0 {
+        for name in ["wake-after-drop", "dead-spawner", "spawner-after-drop", "spawn-pinned"] {
+            run_line(&format!("x {name}"));
+        }
+    }
     // `--count`: print the size of every generator part to stderr instead of running the cases
     let counting = o.extra.iter().any(|a| a == "--count");
     let index = std::cell::Cell::new(0usize);
